@@ -108,7 +108,11 @@ def run_dom(cfg):
     pot, bnd = make_potentials(cfg)
     orig_pot, orig_bnd = pot, bnd
     deep = bool(cfg.get("deepcopy"))
-    if deep:
+    if deep and cfg.get("deepcopy") == "dill":
+        # what resume.py does with the whole mediator: the potentials go through dill (__getstate__ / __setstate__)
+        import dill
+        pot, bnd = dill.loads(dill.dumps(pot)), dill.loads(dill.dumps(bnd))
+    elif deep:
         # MergedImageCoulombPotential.__deepcopy__ copies the C structure (copy_merged_image_coulomb_potential)
         pot, bnd = copy.deepcopy(pot), copy.deepcopy(bnd)
     copy_mismatch = []
@@ -396,10 +400,15 @@ def one_run(cfg, case, pots, cells, mode, seed):
     try:
         random.seed(seed)
         h, bounding = make_handler(cfg, case, pots, cells)
-        if case.get("deep"):
+        if case.get("deep") == "dill":
+            # what resume.py does with the whole mediator: the handler goes through dill
+            import dill
+            h = dill.loads(dill.dumps(h))
+        elif case.get("deep"):
             # exactly what Tagger.initialize does for the 2nd..n-th event handler of a tagger
             h = copy.deepcopy(h)
         res["deep"] = bool(case.get("deep"))
+        res["deep_kind"] = "dill" if case.get("deep") == "dill" else ("deepcopy" if case.get("deep") else None)
         # the potentials the handler really uses (copies, if the handler was deep-copied)
         pot = h._potential
         bounding = getattr(h, "_bounding_potential", None)
